@@ -469,11 +469,13 @@ static int addLeaf(KSI_TreeBuilder *builder, KSI_DataHash *hsh, KSI_MetaData *me
 	KSI_ERR_clearErrors(builder->ctx);
 
 
-	if (builder->maxTreeLevel > 0) {
+	{
 		unsigned short actualInputHeight = 0;
+		/* Without an explicit limit the tree may not grow beyond the highest valid level. */
+		unsigned maxLevel = (builder->maxTreeLevel > 0 ? (unsigned)builder->maxTreeLevel : 0xff);
 
 		/* Let's not waste time and effort. */
-		if (level > builder->maxTreeLevel) {
+		if ((unsigned)level > maxLevel) {
 			KSI_pushError(builder->ctx, res = KSI_BUFFER_OVERFLOW, "Input level greater than maximum tree height.");
 			goto cleanup;
 		}
@@ -481,7 +483,7 @@ static int addLeaf(KSI_TreeBuilder *builder, KSI_DataHash *hsh, KSI_MetaData *me
 		res = levelWithOverhead(builder, (unsigned short)level, &actualInputHeight);
 		if (res != KSI_OK) goto cleanup;
 
-		if (calculateHighestLevel(builder, actualInputHeight) > (unsigned)builder->maxTreeLevel) {
+		if (calculateHighestLevel(builder, actualInputHeight) > maxLevel) {
 			KSI_pushError(builder->ctx, res = KSI_BUFFER_OVERFLOW, "The maximum height passed.");
 			goto cleanup;
 		}
